@@ -902,6 +902,19 @@ func exec(c px.Context, op string, args []sx.Sexp) (res core.Result) {
 		px.DoWithContext(q, func(ctx px.Context) { res = codec(ctx, args[0].Atom, args[1].MustStr()) })
 		return res
 	}
+	if op == "builtin" && len(args) == 5 {
+		ensureCatalogue(c)
+		n, e1 := args[1].AsInt()
+		shape, e2 := args[2].AsInt()
+		if e1 != nil || e2 != nil {
+			bad("builtin indices")
+		}
+		q := pcore.WithParent(context.Background(), px.NewParentedLoader(c.Loader()), nullLogger{}, c.ImplementationRegistry())
+		px.DoWithContext(q, func(ctx px.Context) {
+			res = builtin(ctx, args[0].Atom, int(n), int(shape), parseOpts(args[3]), parseCaps(args[4]))
+		})
+		return res
+	}
 	if op == "span" && len(args) == 1 {
 		// the Timespan codec against its model: decode the text the way the deserializer does, print it back
 		src := args[0].MustStr()
